@@ -19,9 +19,9 @@ TECHNIQUE = ("Coq proof of decode(encode v) = v per column type for every value 
              "vendored vitess binlog decoder (mysql.CellValue) applied to the real bytes")
 LEVEL_TEXT = ("Proof (P): round-trip theorems for integers (all widths, signed/unsigned), YEAR, DATE, DATETIME2 and TIMESTAMP2 for every fsp, TIME2, "
               "length-prefixed strings/blobs, ENUM/SET/BIT and the CHAR metadata, for every value in range; three are REFUTED on the faithful model and on "
-              "the real code (negative TIME with 59 seconds and a fraction, DECIMAL(M,M)); YEAR 0000, JSON keys >= 256 bytes and the JSON small-format uint32 underflow were repaired "
-              "(f00b2b9, 68f42a2): year_roundtrip now covers 0000 and the former witnesses are always-run regression cases and Examples. "
-              "NEWDECIMAL is proved for every precision > scale and every value; FLOAT/DOUBLE for every bit pattern; JSON binary: scalars proved, arrays/objects (small and large "
+              "the real code (negative TIME with 59 seconds and a fraction); YEAR 0000, JSON keys >= 256 bytes, the JSON small-format uint32 underflow and DECIMAL(M,M) were repaired "
+              "(f00b2b9, 68f42a2, c26eb40): decimal_roundtrip now covers precision = scale,  year_roundtrip now covers 0000 and the former witnesses are always-run regression cases and Examples. "
+              "NEWDECIMAL is proved for every precision and scale (precision = scale included) and every value; FLOAT/DOUBLE for every bit pattern; JSON binary: scalars proved, arrays/objects (small and large "
               "formats) modelled, executed and checked by correspondence with two decoders, general theorem not proved (json_scalar_roundtrip_partial). oracle_on_model is proved for every "
               "in-domain value of the proved classes. Partial: that dolt emits the model's bytes is the correspondence.")
 LEVEL_NOTE = ("Trusted: Coq kernel, Go harness + Python glue, the vitess decoder as second opinion. Modelled, not verified: GMS Type.Convert, apd decimal "
@@ -29,14 +29,13 @@ LEVEL_NOTE = ("Trusted: Coq kernel, Go harness + Python glue, the vitess decoder
               "arithmetic (bit patterns are the values), JSON text parsing (documents are given as trees), GEOMETRY. The second JSON decoder is a Go port of MySQL's json_binary.cc rules in the harness (vitess only prints SQL; it must accept the bytes).")
 THEOREMS = ["decimal_roundtrip", "float_roundtrip", "double_roundtrip", "json_scalar_roundtrip_partial", "oracle_on_model", "int_roundtrip", "year_roundtrip", "date_roundtrip", "datetime2_roundtrip", "timestamp2_roundtrip", "time2_roundtrip", "string_roundtrip",
             "blob_roundtrip", "enum_roundtrip", "set_roundtrip", "bit_roundtrip", "char_meta_roundtrip", "bit_meta_len_ok",
-            "time2_neg59_refuted", "decimal_pp_refuted", "json_key_len_roundtrip"]
-REFUTED = ["time2_roundtrip for negative values with 59 seconds and non-zero microseconds: time2_neg59_refuted (open finding)",
-           "decimal for DECIMAL(M,M) columns (serializer errors): decimal_pp_refuted (open finding)"]
+            "time2_neg59_refuted", "json_key_len_roundtrip", "row_roundtrip"]
+REFUTED = ["time2_roundtrip for negative values with 59 seconds and non-zero microseconds: time2_neg59_refuted (open finding)"]
 RULE = ("per column type: boundary values (min, max, -1, 0, powers of 256 +-1, 9-digit group boundaries, calendar and clock extremes, fsp 0..6, enum/set widths at "
         "255/256 members, length prefixes at 255/256 and 65535/65536) + random values; non-trivial = every case (each is a distinct typed value); distinct by (type, value)")
 ASSUMPTIONS = ["values are in the column type's domain (the oracle is vacuous outside it)", "strings use a single-byte character set (latin1_bin / binary): declared length = byte length",
                "negative zero DECIMAL values are not generated (whether dolt can store one was not established)"]
-REQUIRED_TAGS = ["reg-year-0000", "reg-json-key256", "reg-json-oversize", "float", "double", "json", "json-large-format", "int", "year", "date", "datetime", "timestamp", "time", "time-neg", "decimal", "decimal-neg", "varchar", "char", "blob", "text", "enum", "set", "bit",
+REQUIRED_TAGS = ["row-enum-254", "row-enum-255", "row-enum-256", "json-large-object-literal", "reg-decimal-pp", "reg-year-0000", "reg-json-key256", "reg-json-oversize", "float", "double", "json", "json-large-format", "int", "year", "date", "datetime", "timestamp", "time", "time-neg", "decimal", "decimal-neg", "varchar", "char", "blob", "text", "enum", "set", "bit",
                  "len-prefix-2", "enum-2byte", "fsp-odd"]
 COQ_SHARD = 700
 
@@ -196,6 +195,11 @@ def gen_cases(rng, tier):
         for v in (0, 1, 2 ** n - 1, 2 ** (n - 1), rng.randrange(2 ** n)):
             cs.append(c_set(n, v))
             cs.append(c_bit(n, v))
+    # rows: an ENUM column with 254 / 255 / 256 (and a few other) members followed by an INT column
+    for n in (1, 254, 255, 256, 257, 65535):
+        for v in sorted({0, 1, n, min(n, 255), rng.randint(0, n)}):
+            for z in (0, -1, 2147483647, -2147483648, rng.randrange(-2 ** 31, 2 ** 31)):
+                cs.append({"t": "row", "n": n, "i": str(v), "dec": str(z), "expect": _b("%d,%d" % (v, z))})
     # float / double (bit patterns; no NaN / infinities: the column types reject them)
     for bits in (0, 1, 0x3fc00000, 0xbfc00000, 0x7f7fffff, 0x00800000, 0x007fffff, 0x80000001, 0x4b7fffff, 0x3eaaaaab):
         cs.append({"t": "float", "bits": str(bits), "expect": []})
@@ -212,7 +216,9 @@ def gen_cases(rng, tier):
     docs = [None, True, False, 0, 1, -1.5, 1e308, 5e-324, "", "hi", "a" * 127, "b" * 128, "c" * 16383, "d" * 16384, [], {}, [None], [True, False, None],
             [1, "x", [2, ["y", {}]], {"k": []}], {"a": 1, "b": [True, None, "x"], "c": {"d": 2.5}}, {"": ""}, {"a": None, "ab": False, "b": True},
             {"k" * 255: 1}, {"k" * 256: 1}, {"k" * 300: [1]}, {"x": "y" * 200, "z" * 100: {"q": [1, 2, 3]}},
-            ["s" * 400] * 170, ["t" * 300] * 230, {("k%03d" % i): "v" * 330 for i in range(200)}, [[["deep"]]] , ["x", "a" * 70000], {"a": "a" * 70000},
+            ["s" * 400] * 170, ["t" * 300] * 230, {("k%03d" % i): "v" * 330 for i in range(200)},
+            dict({("k%03d" % i): "v" * 330 for i in range(200)}, lit_true=True, lit_false=False, lit_null=None),          # > 64 KB object with literal members
+            dict({("m%02d" % i): ("w" * 1300 if i % 3 else [None, True]) for i in range(90)}, a=None, zz=True), [[["deep"]]] , ["x", "a" * 70000], {"a": "a" * 70000},
             ["a" * 70000, "x"], ["p" * 65525], [None] * 300, [1.0] * 40]
     for _ in range(25 * k):
         docs.append(_rand_doc(rng, 3))
@@ -307,6 +313,8 @@ def _value(c):
         return "(VDouble %s)" % c["bits"]
     if t == "json":
         return "(VJson %s)" % _jv(_json.loads(c["json"]))
+    if t == "row":
+        return "(VRow %d %s %s)" % (c["n"], c["i"], cq_Z(int(c["dec"])))
     return "(VBit %d %s)" % (c["n"], c["i"])
 
 
@@ -339,6 +347,14 @@ def classify(case, out):
         tags.append("enum-2byte")
     if t in ("datetime", "timestamp") and case["fsp"] % 2 == 1:
         tags.append("fsp-odd")
+    if t == "row":
+        tags.append("row-enum-%d" % c_n(case) if c_n(case) in (254, 255, 256) else "row-enum-other")
+    if t == "json" and len(o.get("data") or []) > 4 and o["data"][4] == 1:
+        doc0 = _json.loads(case["json"])
+        if isinstance(doc0, dict) and any(v is None or isinstance(v, bool) for v in doc0.values()):
+            tags.append("json-large-object-literal")
+    if t == "decimal" and case["P"] == case["Sc"] and not o.get("err"):
+        tags.append("reg-decimal-pp")
     # regression witnesses of repaired findings (always generated)
     if t == "year" and int(case["i"]) == 0:
         tags.append("reg-year-0000")
@@ -355,6 +371,10 @@ def classify(case, out):
     return tags
 
 
+def c_n(case):
+    return case.get("n")
+
+
 def nontrivial(case, out):
     return True
 
@@ -364,8 +384,6 @@ def match_known(finding, case, out):
     t = case.get("t")
     if key == "binlog.timeSerializer:negative-time-59s-with-fraction":
         return t == "time" and case["neg"] and case["Us"] > 0 and case["S"] == 59
-    if key == "binlog.decimalSerializer:precision-equals-scale":
-        return t == "decimal" and case["P"] == case["Sc"]
     return False
 
 
